@@ -220,6 +220,7 @@ func main() {
 	conc := flag.String("conc", "", "TLC schedules of concurrent pool calls (spec/TxPoolConc.tla)")
 	salt := flag.Int64("salt", 0, "")
 	sizes := flag.String("sizes", "", "comma-separated block sizes for the block-size boundary histories")
+	fullPool := flag.Bool("fullpool", false, "a reorg while the pool is at its size limit")
 	flag.Parse()
 	if *scratch == "" {
 		vutil.Fatalf("--scratch required")
@@ -334,12 +335,71 @@ func main() {
 			nh++
 		}
 	}
+	if *fullPool {
+		fullPoolReorg(tr)
+	}
 	nconc := 0
 	if concAbs != "" {
 		nconc = concMode(tr, concAbs)
 	}
 	tr.Close()
 	fmt.Printf("c17: histories=%d calls=%d events=%d schedules=%d\n", nh, calls, tr.N, nconc)
+}
+
+// fullPoolReorg: a block of three transactions is booked, the pool is then filled to its size
+// limit (50 000 pending), and the block is removed by a reorg: its transactions must be pending
+// again (and not executed) although the pool has no room. Reported as one compact event (the
+// pending list is too long for the per-call projection).
+func fullPoolReorg(tr *vutil.Trace) {
+	newHistory(nil, map[int]int{9: 0})
+	mkf := func(i int) *types.Transaction {
+		t := &types.Transaction{Type: types.TransactionTypeOperatorEvent, Source: senderAddr(9), Data: fmt.Sprintf("h%d-full-%d;", histNo, i), RequestId: uint64(i + 1)}
+		t.Hash = t.GenHash()
+		return t
+	}
+	blk := []*types.Transaction{mkf(0), mkf(1), mkf(2)}
+	for _, t := range blk {
+		pool.AddTransaction(t)
+	}
+	rs := types.Receipts{}
+	for _, t := range blk {
+		r := types.NewReceipt(nil, false, 0, 1, "", t.Source, "")
+		r.TxHash = t.Hash
+		rs = append(rs, r)
+	}
+	h := &types.BlockHeader{Height: 1, Hash: common.BytesToHash(common.Sha256([]byte(fmt.Sprintf("blk-full-%d", histNo))))}
+	pool.MarkExecuted(h, rs, blk, nil)
+	filler := make([]common.Hash, 0, 50000)
+	for i := 10; len(filler) < 50000 && i < 200000; i++ {
+		t := mkf(i)
+		if ok, _ := pool.AddTransaction(t); ok && pool.IsExisted(t.Hash) {
+			filler = append(filler, t.Hash)
+		}
+	}
+	full := int(pool.TxNum())
+	pool.UnMarkExecuted(&types.Block{Header: h, Transactions: blk})
+	pendingAgain, stillExecuted := 0, 0
+	got := map[common.Hash]bool{}
+	for _, t := range pool.GetReceived() {
+		got[t.Hash] = true
+	}
+	for _, t := range blk {
+		if got[t.Hash] {
+			pendingAgain++
+		}
+		if pool.GetExecuted(t.Hash) != nil {
+			stillExecuted++
+		}
+	}
+	tr.Emit(map[string]interface{}{"event": "FullPoolReorg", "pendingBefore": full, "block": len(blk), "pendingAgain": pendingAgain,
+		"stillExecuted": stillExecuted, "state": map[string]interface{}{"pending": []int{}, "executed": []bool{}, "existed": []bool{}, "found": []bool{}, "lookupSkipped": true}})
+	// empty the pool again
+	pool.MarkExecuted(&types.BlockHeader{}, nil, nil, filler)
+	ev := []common.Hash{}
+	for _, t := range blk {
+		ev = append(ev, t.Hash)
+	}
+	pool.MarkExecuted(&types.BlockHeader{}, nil, nil, ev)
 }
 
 func boolInt(b bool) int {
